@@ -24,6 +24,7 @@ def runHandler (env : Env) (cfg : Config) (h : Handler) (s : State) : M State :=
   | .misc_FROMALTSTACK => do_FROMALTSTACK s
   | .misc_CHECKLOCKTIMEVERIFY => do_CHECKLOCKTIMEVERIFY cfg s
   | .misc_CHECKSEQUENCEVERIFY => do_CHECKSEQUENCEVERIFY cfg s
+  | .misc_IFDUP => do_IFDUP_misc s
   | .stack_NOP => pure s
   | .stack_VER | .stack_RESERVED1 | .stack_RESERVED2 => .error (scriptErr errno_BAD_OPCODE)
   | .stack_RETURN => .error (scriptErr errno_OP_RETURN)
@@ -95,7 +96,6 @@ def evalInstruction (env : Env) (cfg : Config) (s : State) : M State := do
   | some d => if d.length > MAX_BLOB_LENGTH then .error (scriptErr errno_PUSH_SIZE)
   | none => pure ()
   let s := if f.data.isNone then { s with opCount := s.opCount + 1 } else s
-  checkStackSize s
   let (h, outsideConditional) ← match lookupList[f.opcode]? with
     | some e => pure e
     | none => .error (.py "IndexError")
@@ -105,12 +105,12 @@ def evalInstruction (env : Env) (cfg : Config) (s : State) : M State := do
   let s := { s with pc := f.pc }
   let s ← if allIfTrue || outsideConditional then runHandler env cfg h s else pure s
   if s.opCount > MAX_OP_COUNT then .error (scriptErr errno_OP_COUNT)
+  -- the size limit is checked after every instruction
+  checkStackSize s
   pure s
 
 /-- `post_script_check` -/
-def postScriptCheck (s : State) : M Unit := do
-  s.cond.checkFinalState
-  checkStackSize s
+def postScriptCheck (s : State) : M Unit := s.cond.checkFinalState
 
 /-- `while self.pc < len(self.script): self.eval_instruction()`; structural in `fuel`
 (`OutOfFuel` is never returned by `evalScript`: see `C03M_eval_terminates`) -/
